@@ -1,12 +1,12 @@
 (** C08 - Partitioning heuristics meet their proven worst-case guarantees.
-    PROVED for all inputs: greedy (LPT) largest sum <= (4/3 - 1/(3k)) OPT (Graham's bound, full statement: lpt_ratio_43);
+    PROVED for all inputs: greedy (LPT) and Karmarkar-Karp largest sum <= (4/3 - 1/(3k)) OPT (full statements: lpt_ratio_43, kk_ratio_43);
     the gap largest - smallest <= largest item for greedy, Karmarkar-Karp and round-robin; round-robin's sums are non-increasing in
-    bin index and its cardinalities differ by at most one; weaker constants for every k: KK largest <= (3/2 - 1/(2k)) OPT, multifit largest <= (5/4 + 2^-it) OPT + 19/4 (and <= 2 OPT),
-    greedy smallest >= 3/4 OPTmin (the limit of the sharp constant) and >= k/(2k-1) OPTmin; the sharp KK and greedy-smallest bounds for 1 and 2 bins.
+    bin index and its cardinalities differ by at most one; weaker constants for every k: multifit largest <= (5/4 + 2^-it) OPT + 19/4 (and <= 2 OPT),
+    greedy smallest >= 3/4 OPTmin (the limit of the sharp constant) and >= k/(2k-1) OPTmin; the sharp greedy-smallest bound for 1 and 2 bins.
     NOT proved (research-level case analyses, DESIGN section 8; tested against the verified oracle opt_value and planted optima):
-    KK 4/3 - 1/(3k); greedy smallest >= (3k-1)/(4k-2) OPTmin; multifit 1.22 + 2^-iterations.
+    greedy smallest >= (3k-1)/(4k-2) OPTmin; multifit 1.22 + 2^-iterations.
     Statements only; proofs in Proofs/{GreedyProofs,KKProofs,CKKOptimal,RatioProofs,MultifitProofs,OracleSpec}.v. *)
-From Prtpy Require Import Base.Prelude Model.Binner Model.Objectives Model.Greedy Model.KK Model.Multifit Spec.Partition Oracle.Reach Proofs.GreedyProofs Proofs.KKProofs Proofs.CKKOptimal Proofs.RatioProofs Proofs.MultifitProofs Proofs.OracleSpec Proofs.KKRatioProofs Proofs.LPTMinProofs Proofs.LPTMinFullProofs Proofs.MultifitRatioProofs.
+From Prtpy Require Import Base.Prelude Model.Binner Model.Objectives Model.Greedy Model.KK Model.Multifit Spec.Partition Oracle.Reach Proofs.GreedyProofs Proofs.KKProofs Proofs.CKKOptimal Proofs.RatioProofs Proofs.MultifitProofs Proofs.OracleSpec Proofs.KKRatioProofs Proofs.LPTMinProofs Proofs.LPTMinFullProofs Proofs.MultifitRatioProofs Proofs.KKRatio43Proofs.
 
 (** greedy: 3k * largest <= (4k - 1) * OPT, i.e. largest <= (4/3 - 1/(3k)) OPT *)
 Theorem C08_lpt_ratio_43 :
@@ -17,6 +17,30 @@ Theorem C08_lpt_ratio_43 :
   3 * Z.of_nat k * zmax (sums (greedy valueof keep k items)) <= (4 * Z.of_nat k - 1) * opt.
 Proof. exact @lpt_ratio_43. Qed.
 Print Assumptions C08_lpt_ratio_43.
+
+(** Karmarkar-Karp: 3k * largest <= (4k - 1) * OPT, i.e. largest <= (4/3 - 1/(3k)) OPT, for every k (Michiels, Korst, Aarts, van Leeuwen): the property's bound in full *)
+Theorem C08_kk_ratio_43 :
+  forall (A : Type) (valueof : A -> Z) (k : nat) (items : list A) (b : bins A) (opt : Z),
+  (1 <= k)%nat ->
+  items <> [] ->
+  Forall (fun x : A => 0 <= valueof x) items ->
+  kk valueof true k items = Ok b ->
+  Opt MinLargest k (map valueof items) opt ->
+  3 * Z.of_nat k * zmax (sums b) <= (4 * Z.of_nat k - 1) * opt.
+Proof. exact @kk_ratio_43. Qed.
+Print Assumptions C08_kk_ratio_43.
+
+(** the key lemma: the largest sum is at most OPT, or largest - smallest <= OPT/3 *)
+Theorem C08_kk_dichotomy_third :
+  forall (A : Type) (valueof : A -> Z) (k : nat) (items : list A) (b : bins A) (opt : Z),
+  (1 <= k)%nat ->
+  items <> [] ->
+  Forall (fun x : A => 0 <= valueof x) items ->
+  kk valueof true k items = Ok b ->
+  Opt MinLargest k (map valueof items) opt ->
+  zmax (sums b) <= opt \/ zmax (sums b) - zmin (sums b) <= opt / 3.
+Proof. exact @kk_dichotomy_third. Qed.
+Print Assumptions C08_kk_dichotomy_third.
 
 (** largest - smallest <= largest item *)
 Theorem C08_greedy_gap :
@@ -118,30 +142,6 @@ Theorem C08_lpt_min_partial :
   - v - zmax (map valueof items) <= zmin (sums (greedy valueof keep k items)).
 Proof. exact @lpt_min_partial. Qed.
 Print Assumptions C08_lpt_min_partial.
-
-(** PARTIAL (weaker constant, every k): KK largest <= (3/2 - 1/(2k)) OPT *)
-Theorem C08_kk_ratio_32_partial :
-  forall (A : Type) (valueof : A -> Z) (k : nat) (items : list A) (b : bins A) (opt : Z),
-  (1 <= k)%nat ->
-  items <> [] ->
-  Forall (fun x : A => 0 <= valueof x) items ->
-  kk valueof true k items = Ok b ->
-  Opt MinLargest k (map valueof items) opt ->
-  2 * Z.of_nat k * zmax (sums b) <= (3 * Z.of_nat k - 1) * opt.
-Proof. exact @kk_ratio_32_partial. Qed.
-Print Assumptions C08_kk_ratio_32_partial.
-
-(** PARTIAL: the full 4/3 - 1/(3k) bound for KK with 1 or 2 bins (7/6 for two bins, Fischetti and Martello) *)
-Theorem C08_kk_ratio_43_k12_partial :
-  forall (A : Type) (valueof : A -> Z) (k : nat) (items : list A) (b : bins A) (opt : Z),
-  (1 <= k <= 2)%nat ->
-  items <> [] ->
-  Forall (fun x : A => 0 <= valueof x) items ->
-  kk valueof true k items = Ok b ->
-  Opt MinLargest k (map valueof items) opt ->
-  3 * Z.of_nat k * zmax (sums b) <= (4 * Z.of_nat k - 1) * opt.
-Proof. exact @kk_ratio_43_k12_partial. Qed.
-Print Assumptions C08_kk_ratio_43_k12_partial.
 
 (** PARTIAL (weaker constant, every k): greedy smallest >= k/(2k-1) OPTmin *)
 Theorem C08_lpt_min_ratio_half_partial :
